@@ -928,7 +928,7 @@ def run(ctx):
         ctx.oblige("tie:T3-shape-recognised", False, str(e))
 
     # ---- S3: models ---------------------------------------------------------------------------
-    n_plain = int(os.environ.get("C11_N", 0)) or ctx.scaled(200, 3000)
+    n_plain = int(os.environ.get("C11_N", 0)) or ctx.scaled(150, 1200)
     n_ne = ctx.scaled(6, 40)
     n_r3 = ctx.scaled(6, 40)
     n_eo = ctx.scaled(4, 30)
